@@ -1,23 +1,37 @@
 """C16 — region operations obey set semantics in full 3-D.
 
-Bounded-exhaustive: every ordered pair of region kinds (13 kinds, 1-2 concrete shapes
-each, planar ones at non-zero height) x {intersect, union, difference} x a probe lattice
-(7^3 half-cell-offset points over the joint bounding box + lattices in the planes of the
-planar operands + points lying exactly on the lower-dimensional operands), judged by the
-independent analytic predicates of models/solid_c16.py:
+Bounded-exhaustive (no sampling): every ordered pair of 13 region kinds (box, spheroid,
+non-convex mesh volume, mesh surface, polygon with hole, circle, sector, rectangle,
+polyline, 3-D path, point set, grid, polygonal footprint; 1 shape each in the quick tier,
+2 in the thorough tier; planar ones at non-zero height) x {intersect, union, difference}
+x configurations x a probe lattice, judged by the independent analytic predicates of
+models/solid_c16.py.  Work items:
 
- (a) R = A.op(B):  R.containsPoint(p)  <=>  op(p in A, p in B)        [oracle membership]
-     and, where R answers distanceTo, distance 0 on members / >= margin on clear
-     non-members, and every member probe inside R.AABB
- (p) primitive membership / distanceTo / AABB / size / dimensionality of every shape
- (b) A.intersects(B) in three deliberately built situations (overlap, apart in x,
-     apart in z only)
- (d) projectVector(p, d) = nearest hit along +-d for 6 axis directions on mesh volumes
-     and surfaces, convex and not
- (e) containsRegion: false when a probe of B is clearly outside A, true for a shrunk
-     copy of B placed inside a ball contained in A; inclusion-exclusion of sizes
+ op     R = A.op(B) through the public methods (eager, and with lazily constructed
+        operands that are then sampled):  R.containsPoint(p) <=> op(p in A, p in B) with
+        the *oracle's* operand membership; where R answers distanceTo, distance 0 on
+        members and >= margin/2 on clear non-members; every member probe inside R.AABB;
+        distanceTo(A u B) = min of the operand distances.
+        Configurations: std; partner brought down to z = 0 for the kinds the library
+        locks at z = 0 (polyline); second planar operand raised by 0.75; a few deliberately
+        degenerate but valid inputs (touching in one point, sector wider than 120 deg).
+ prim   per shape: containsPoint, distanceTo (exact value), AABB, size, dimensionality.
+ rel    per ordered pair: A.intersects(B) with overlap / apart in x / apart in z only;
+        A.containsRegion(B) with an outside witness (must be false) and with a shrunk copy
+        of B inside a ball contained in A (must be true).
+ sizes  |A u B| + |A n B| = |A| + |B| and |A - B| + |A n B| = |A| for concrete results.
+ proj   projectVector(p, onDirection=d) = nearest hit along +-d, 6 axis directions, on
+        box / spheroid / non-convex mesh volume / mesh surface.
 
-Nothing is sampled; VERIF_SEED only rotates the work list.
+Probes closer than the margin (1e-3 of the joint bounding-box diagonal, plus the band of
+the polyhedral approximation of curved kinds) to an operand's boundary are skipped and
+counted.  Documented refusals (NotImplementedError, "does not support ...") are counted
+as refused.  One violation per item; its signature is <op>:<TypeA>-x-<TypeB>:<tag> where
+the tag is the most specific discrepancy seen (z-dropped: result rebuilt at another
+height; member-missing / nonmember-included; dist-*; aabb-excludes-member;
+z-ignored-distance; z-ignored: containsPoint answers for the infinite footprint column of
+a planar operand - reported only when nothing else is wrong so that it can never hide
+another defect).  VERIF_SEED only rotates the work list.
 """
 
 from __future__ import annotations
@@ -311,7 +325,6 @@ def do_op(item):
     mA, mB = oa.member(P), ob.member(P)
     cl = np.minimum(oa.clear(P), ob.clear(P))
     exp = apply_op(op, mA, mB)
-    col = apply_op(op, oa.column(P), ob.column(P))
     colok = np.minimum(col_clear(oa, P), col_clear(ob, P)) >= margin
     ok = (cl >= margin) & colok
     if op == "difference" and ob.dim < oa.dim:
@@ -350,7 +363,7 @@ def do_op(item):
             e = apply_op(op, ca, cb)
             any_true |= e
             any_false |= ~e
-    for z0 in planes + [0.0]:
+    for z0 in planes:
         Pz = P.copy()
         Pz[:, 2] = z0
         e = apply_op(op, oa.member(Pz), ob.member(Pz))
@@ -413,13 +426,6 @@ def do_op(item):
         order = ["z-dropped", "member-missing", "nonmember-included", "dist-positive-on-member", "dist-zero-on-nonmember", "aabb-excludes-member", "dist-wrong-value", "z-ignored-distance", "z-ignored"]
         prim = next(t for t in order if t in found)
         viol(res, f"{pre}:{prim}", f"{desc0}; {int(ok.sum())} probes judged.\n" + "\n".join(found[t] for t in order if t in found), item)
-    # sizes: inclusion-exclusion is checked in the parent from these numbers
-    try:
-        sz = Rg.size
-        res["size"] = None if sz is None else float(sz)
-        res["dimensionality"] = Rg.dimensionality
-    except Exception:  # noqa
-        pass
     return res
 
 
@@ -545,7 +551,6 @@ def do_prim(item):
         if not (abs(float(sz) - wsz) <= rel * max(1.0, abs(wsz)) or (math.isinf(wsz) and math.isinf(float(sz)))):
             viol(res, f"size:{T}:mismatch", f"size {sz} but the exact size of {sa} is {wsz}", item)
         res["counts"]["size_judged"] = 1
-    res["size"] = None if sz is None else float(sz)
     return res
 
 
